@@ -25,6 +25,7 @@ UnconfToo == FALSE
 Offs == {}
 Rtds == {}
 DistinctOnly == FALSE
+Clk0s == {}
 MaxEv == 0
 FilterAverage == 20
 
